@@ -258,7 +258,12 @@ func (env *exprEnv) tr(x *Expr) typedTerm {
 		}
 		return env.fail("cannot slice %s", base.typ)
 	case "unary":
+		saved := env.instAt
+		if x.name == "!" {
+			env.instAt = nil
+		}
 		a := env.tr(x.args[0])
+		env.instAt = saved
 		if x.name == "!" {
 			return typedTerm{t: not(a.t), typ: tBool}
 		}
@@ -418,7 +423,18 @@ func (env *exprEnv) binary(x *Expr) typedTerm {
 	op := x.name
 	switch op {
 	case "&&", "||", "==>", "<==>":
-		a, b := env.tr(x.args[0]), env.tr(x.args[1])
+		// explicit instantiation (instAt) only makes sense for quantifiers of positive polarity
+		saved := env.instAt
+		if op == "==>" || op == "<==>" {
+			env.instAt = nil
+		}
+		a := env.tr(x.args[0])
+		env.instAt = saved
+		if op == "<==>" {
+			env.instAt = nil
+		}
+		b := env.tr(x.args[1])
+		env.instAt = saved
 		switch op {
 		case "&&":
 			return typedTerm{t: and(a.t, b.t), typ: tBool}
